@@ -53,7 +53,10 @@ func printUnit(r *UnitResult, verbose bool) bool {
 		if !good && o.Model != "" && verbose {
 			fmt.Println(indent(o.Model, "      "))
 		}
-		if !good && o.Raw != "" {
+		if !good && o.Kind == "frame" && o.Where != "" {
+			fmt.Println("      where: " + o.Where)
+		}
+		if !good && o.Raw != "" && o.Kind != "frame" {
 			fmt.Println("      " + o.Raw)
 		}
 	}
